@@ -17,6 +17,17 @@ def _iter_errors_calls(calls, f):
     return out
 
 
+def _cli_table_clean(ctx):
+    if "_clisem" not in ctx.extra:
+        from .clisem import cli_eval
+        try:
+            ctx.extra["_clisem"] = cli_eval(ctx.prog)
+        except RecursionError:
+            ctx.extra["_clisem"] = None
+    sem = ctx.extra["_clisem"]
+    return sem is not None and "raises" not in sem and not any(sem.get(c) for c in ("all-instances", "reports", "class", "exit"))
+
+
 def rule_single_source(ctx, rid="R4.1"):
     prog = ctx.prog
     calls = calls_of(prog)
@@ -57,7 +68,10 @@ def rule_single_source(ctx, rid="R4.1"):
             ok = got == ["*" + (a.vararg.arg if a.vararg else "?"), "**" + (a.kwarg.arg if a.kwarg else "?")] or got == f.params[1:]
         else:
             ok = got == [f.params[0]] if f.name == "validate" else got == [f.params[1]]
-        if ok:
+        if not ok and f.mod.name == "cli" and _cli_table_clean(ctx):
+            r.ok(site(f, c), "decided on the CLI scenario table (sa/rules/clisem.py): every loadable instance is validated once, by the one "
+                 "validator, and each error the validator yields is reported once -- whichever function holds the loop")
+        elif ok:
             r.ok(site(f, c), "iter_errors(%s): own arguments, unchanged" % ", ".join(got))
         else:
             r.fail("%s|iter_errors-args|%s" % (f.qual, ",".join(got)), site(f, c),
